@@ -95,7 +95,7 @@ Proof.
     assert (Nin : ~ In n (vn_params v)).
     { intro Hin. apply in_nat_In in Hin. rewrite <- En in Hit.
       apply Z.leb_le in Hh. rewrite Hh, Hin in Hit. discriminate. }
-    destruct (vn_ranged v && negb (range_ok (frange (S (length (pt_slots t))) t n) (vn_f0 v) (vn_fmax v))).
+    destruct (vn_ranged v && negb (range_ok (frange_c (S (length (pt_slots t))) t n) (vn_f0 v) (vn_fmax v))).
     { inversion E; subst. split; [apply shk_refl|]. split; auto. }
     assert (Reg : forall t0 v0, shk t t0 ->
               (forall x, In x (vn_params v0) -> In x (vn_params v) \/ ((0 <= h)%Z /\ reach t (Z.to_nat h) x)) ->
@@ -103,7 +103,7 @@ Proof.
               forall t1 v1 ok,
               (hold t0 n,
                mkVN (vn_type v0) (vn_dim v0) (vn_nf v0) (vn_fvalid v0) (vn_f0 v0) (vn_params v0 ++ [n])
-                    (if match p_kind p with KUnknown _ _ | KCorrelated _ _ => true | _ => false end
+                    (if match p_kind p with KUnknown _ _ | KCorrelated _ _ _ => true | _ => false end
                      then vn_unknowns v0 ++ [n] else vn_unknowns v0) (vn_meas v0) (vn_cal v0), true) = (t1, v1, ok) ->
               shk t t1 /\
               (forall x, In x (vn_params v1) -> In x (vn_params v) \/ ((0 <= h)%Z /\ reach t (Z.to_nat h) x)) /\
@@ -113,7 +113,7 @@ Proof.
       - intros x Hx. apply in_app_or in Hx. destruct Hx as [Hx|[<-|[]]]; [apply I0; exact Hx|].
         right. split; [exact Hh|]. rewrite <- En. apply reach_refl.
       - intros Hn. apply nodup_snoc; [apply N0; exact Hn|exact Nn]. }
-    destruct (p_kind p) as [g|fs gs|o sv|o sv] eqn:Kp;
+    destruct (p_kind p) as [g|fs gs|o sv|o sf sv] eqn:Kp;
       try (apply (Reg t v (shk_refl t) (fun x Hx => or_introl Hx) (fun H => H) Nin _ _ _ E)).
     destruct (vn_get_param f t v (Z.of_nat o)) as [[t0 v0] b] eqn:Er.
     destruct (IH _ _ _ _ _ _ A Er) as (K0 & I0 & N0).
@@ -258,18 +258,18 @@ Qed.
    [acceptable] and CalTabWalks.accepted_standard_l (validation pass + registration of every cell) *)
 Require Import LV.CalTab.CalTabWalks.
 Lemma zero_points_visible_acceptable : forall t v h n p, vn_nf v = 0 ->
-  get_param t h = Some (n, p) -> (forall o sv, p_kind p <> KCorrelated o sv) -> acceptable t v h.
+  get_param t h = Some (n, p) -> (forall o sf sv, p_kind p <> KCorrelated o sf sv) -> acceptable t v h.
 Proof.
   intros t v h n p Z G NC. destruct (get_param_some _ _ _ _ G) as (Sn & Dn & En & Hh). subst n.
   apply acc_visible with p; auto.
   - apply zero_points_in_range. exact Z.
-  - intros o sv K. exfalso. apply (NC o sv K).
+  - intros o sf sv K. exfalso. apply (NC o sf sv K).
 Qed.
 
 Lemma zero_points_standard_added : forall s id v hs ms,
   Inv s -> st_freed s = false -> get_new s id = Some v -> vn_nf v = 0 ->
   (forall h, In h hs -> ((0 <= h)%Z /\ In (Z.to_nat h) (vn_params v)) \/
-                        exists n p, get_param (st_pt s) h = Some (n, p) /\ forall o sv, p_kind p <> KCorrelated o sv) ->
+                        exists n p, get_param (st_pt s) h = Some (n, p) /\ forall o sf sv, p_kind p <> KCorrelated o sf sv) ->
   exists s' v', step s (OAddStd id hs ms) = (s', ok_int 0) /\ get_new s' id = Some v' /\
                 vn_meas v' = vn_meas v ++ [mkMeas (map Z.to_nat hs) ms].
 Proof.
